@@ -357,6 +357,9 @@ type c05kRun struct {
 	restart bool
 	set     []int
 	fail    c05kFail
+	// pick >= 0: when the run starts, aim the failure at a registered server that holds a non-empty trash
+	// list at that moment (the pick-th of them), if there is one
+	pick int
 }
 
 func c05kSubset(r *vRand, n, min int) []int {
@@ -420,6 +423,10 @@ func c05kSequence(t *testing.T, r *vRand, i int, lostFile string) (string, map[s
 	now := time.Now()
 	cl := &c05kCluster{t: t, devices: map[string]map[string]int64{}, ksPages: 1 + r.Intn(2),
 		oldBase: now.Add(-30 * 24 * time.Hour).UnixNano(), newBase: now.Add(-time.Hour).UnixNano()}
+	stratum := []string{"stable-service-list", "changing-service-list", "clear-fault-after-change", "random", "lists-from-earlier-process"}[i%5]
+	// in the stratum that fails a clearing PUT, most blocks are over-replicated (old replicas on most devices, modest
+	// demands), so that the first run leaves non-empty trash lists on several servers
+	dense := stratum == "clear-fault-after-change" && r.Chance(3, 4)
 	// ---- cluster ----
 	nsrv := 3 + r.Intn(3)
 	num := 0
@@ -473,13 +480,16 @@ func c05kSequence(t *testing.T, r *vRand, i int, lostFile string) (string, map[s
 		blk := c05Blk(r.U64() % 100000)
 		cl.blocks = append(cl.blocks, blk)
 		p := 1 + r.Intn(3) // replica density p/4
+		if dense {
+			p = 3
+		}
 		for _, dk := range devKeys {
 			if r.Intn(4) < p {
 				mt := cl.oldBase + int64(1+r.Intn(99))
-				switch r.Intn(8) {
-				case 0:
+				switch x := r.Intn(8); {
+				case x == 0:
 					mt = cl.oldBase + 50 // colliding
-				case 1:
+				case x == 1 && !dense:
 					mt = cl.newBase + int64(1+r.Intn(99)) // newer than the signature TTL
 				}
 				cl.devices[dk][string(blk[:32])] = mt
@@ -495,6 +505,13 @@ func c05kSequence(t *testing.T, r *vRand, i int, lostFile string) (string, map[s
 		c := c05kColl{}
 		if len(gc) > 0 {
 			c.classes, c.repl = gc[0].classes, gc[0].repl
+		}
+		if dense {
+			c.classes = nil
+			if r.Chance(1, 2) {
+				one := 1
+				c.repl = &one
+			}
 		}
 		if u == 1 && (c.repl != nil && *c.repl == 0) {
 			c.repl = nil // at least one collection wants something (CheckSanityLate)
@@ -526,7 +543,6 @@ func c05kSequence(t *testing.T, r *vRand, i int, lostFile string) (string, map[s
 	sim.clock = ncoll
 	cl.coll = sim
 	// ---- runs ----
-	stratum := []string{"stable-service-list", "changing-service-list", "clear-fault-after-change", "random", "lists-from-earlier-process"}[i%5]
 	cp, ct := true, true
 	if r.Chance(1, 8) {
 		cp = r.Bool()
@@ -547,7 +563,7 @@ func c05kSequence(t *testing.T, r *vRand, i int, lostFile string) (string, map[s
 	switch stratum {
 	case "stable-service-list":
 		for k := 0; k < nruns; k++ {
-			run := c05kRun{set: setA}
+			run := c05kRun{set: setA, pick: -1}
 			if r.Chance(1, 2) {
 				run.fail = c05kRandFail(r, setA, nmounts)
 			}
@@ -556,14 +572,14 @@ func c05kSequence(t *testing.T, r *vRand, i int, lostFile string) (string, map[s
 	case "changing-service-list":
 		cur := setA
 		for k := 0; k < nruns; k++ {
-			runs = append(runs, c05kRun{set: cur})
+			runs = append(runs, c05kRun{set: cur, pick: -1})
 			if r.Chance(2, 3) {
 				cur = other(cur)
 			}
 		}
 	case "clear-fault-after-change":
 		setB := other(setA)
-		runs = append(runs, c05kRun{set: setA})
+		runs = append(runs, c05kRun{set: setA, pick: -1})
 		var common []int
 		for _, x := range setB {
 			for _, y := range setA {
@@ -576,14 +592,14 @@ func c05kSequence(t *testing.T, r *vRand, i int, lostFile string) (string, map[s
 		if len(common) > 0 && r.Chance(3, 4) {
 			target = common[r.Intn(len(common))]
 		}
-		runs = append(runs, c05kRun{set: setB, fail: c05kFail{kind: "clear_trash", arg: target, mode: r.Intn(4)}})
+		runs = append(runs, c05kRun{set: setB, fail: c05kFail{kind: "clear_trash", arg: target, mode: r.Intn(4)}, pick: r.Intn(8) - 2})
 		for k := 0; k < 1+r.Intn(2); k++ {
-			runs = append(runs, c05kRun{set: setB})
+			runs = append(runs, c05kRun{set: setB, pick: -1})
 		}
 	default:
 		cur := setA
 		for k := 0; k < nruns; k++ {
-			run := c05kRun{set: cur, restart: k > 0 && r.Chance(1, 8)}
+			run := c05kRun{set: cur, restart: k > 0 && r.Chance(1, 8), pick: -1}
 			if r.Chance(1, 3) {
 				run.fail = c05kRandFail(r, cur, nmounts)
 			}
@@ -615,7 +631,7 @@ func c05kSequence(t *testing.T, r *vRand, i int, lostFile string) (string, map[s
 	// ---- drive the real code ----
 	client := &arvados.Client{Client: &http.Client{Transport: cl}, Scheme: "http", APIHost: "api.example", AuthToken: "tok"}
 	cluster := &arvados.Cluster{}
-	cluster.Collections.BalanceTimeout = arvados.Duration(time.Minute)
+	cluster.Collections.BalanceTimeout = arvados.Duration(time.Hour) // no verdict depends on it
 	cluster.Collections.BalanceCollectionBatch = 1 + r.Intn(4)
 	cluster.Collections.BalanceCollectionBuffers = 2
 	cluster.Collections.BlobMissingReport = lostFile
@@ -634,6 +650,17 @@ func c05kSequence(t *testing.T, r *vRand, i int, lostFile string) (string, map[s
 		}
 		os.Remove(lostFile)
 		cl.mtx.Lock()
+		if run.pick >= 0 {
+			var holders []int
+			for _, s := range run.set {
+				if cl.services[s].pendTag != "" {
+					holders = append(holders, s)
+				}
+			}
+			if len(holders) > 0 {
+				run.fail.arg = holders[run.pick%len(holders)]
+			}
+		}
 		cl.registered, cl.fail, cl.failedReq, cl.seenDD, cl.ncoll = run.set, run.fail, "", false, 0
 		cl.log, cl.view, cl.viewed, cl.deleted = nil, map[int]map[string]int64{}, map[string]bool{}, nil
 		cl.wireTrash, cl.wirePull, cl.plan = map[int][]c05kTrashReq{}, map[int][]c05kPullReq{}, map[int][2]int{}
